@@ -1,6 +1,6 @@
 """Per-property wiring: which harness parts make up each check."""
 import os, json
-from vlib.driver import cargo_build, run_part, ENGINES, TARGET, MachineryError, ROOT
+from vlib.driver import cargo_build, run_part, ENGINES, TARGET, MachineryError, ROOT, log
 
 REL = os.path.join(TARGET, "release")
 
@@ -33,16 +33,71 @@ TARGET_GEN = os.path.join(ROOT, "build", "target-gen")
 NSHARDS = 16
 
 
+COMPILE_FAILURES = {}
+
+
 def build_family(family, tier):
-    """generate + build the batch crates of one program family; returns the list of shard binaries"""
+    """generate + build the batch crates of one program family; returns the list of shard binaries.
+    Units whose program does not compile are isolated (exclude.json), rebuilt without, and remembered in
+    COMPILE_FAILURES[(family, tier)] = {unit: first error line} for the caller to report."""
+    import subprocess, re
     cargo_build(ENGINES, ["--release", "-p", "prog", "--bin", "pgen"])
-    import subprocess
-    p = subprocess.run([os.path.join(REL, "pgen"), family, tier, GEN, str(NSHARDS)], capture_output=True, text=True)
-    if p.returncode != 0:
-        raise MachineryError("pgen failed: " + p.stderr[-2000:])
     d = os.path.join(GEN, "%s_%s" % (family, tier))
-    cargo_build(d, ["--release"], env={"CARGO_TARGET_DIR": TARGET_GEN})
+    excl = os.path.join(d, "exclude.json")
+    if os.path.exists(excl):
+        os.remove(excl)
+    failures = {}
+    for attempt in range(10):
+        p = subprocess.run([os.path.join(REL, "pgen"), family, tier, GEN, str(NSHARDS)], capture_output=True, text=True)
+        if p.returncode != 0:
+            raise MachineryError("pgen failed: " + p.stderr[-2000:])
+        try:
+            cargo_build(d, ["--release"], env={"CARGO_TARGET_DIR": TARGET_GEN})
+            break
+        except MachineryError as e:
+            out = getattr(e, 'full_output', str(e))
+            new = {}
+            msg = None
+            for line in out.splitlines():
+                m0 = re.match(r"^error(\[E\d+\])?: (.*)", line)
+                if m0:
+                    msg = m0.group(2)
+                m = re.search(r"--> (g_%s_%s_s\d+)/src/main.rs:(\d+):" % (family, tier), line)
+                if m:
+                    src = open(os.path.join(d, m.group(1), "src", "main.rs")).read().splitlines()
+                    ln = int(m.group(2))
+                    unit = None
+                    for i in range(min(ln, len(src)) - 1, -1, -1):
+                        mm = re.match(r"pub mod u(\d+)_v(\d+) \{", src[i])
+                        if mm:
+                            unit = int(mm.group(1))
+                            break
+                    if unit is not None and unit not in failures and unit not in new:
+                        new[unit] = (msg or "compile error") + " :: " + (src[ln - 1].strip() if ln - 1 < len(src) else "")
+            if not new or attempt == 9:
+                raise
+            failures.update(new)
+            with open(excl, "w") as f:
+                json.dump({"units": sorted(failures)}, f)
+            log("family %s/%s: %d unit(s) do not compile, isolating them: %s" % (family, tier, len(failures), sorted(failures)[:20]))
+    COMPILE_FAILURES[(family, tier)] = failures
     return [os.path.join(TARGET_GEN, "release", "g_%s_%s_s%02d" % (family, tier, i)) for i in range(NSHARDS)]
+
+
+def compile_failure_part(prop, family, tier):
+    """violations for units that were isolated because their (well-formed) program does not compile"""
+    import subprocess
+    fails = COMPILE_FAILURES.get((family, tier), {})
+    vs, sigs = [], {}
+    for unit, msg in sorted(fails.items()):
+        dj = json.loads(subprocess.run([os.path.join(REL, "pgen"), "--describe", family, tier, str(unit)], capture_output=True, text=True).stdout)
+        sig = "%s|%s|%s|does-not-compile" % (prop, family, dj["tag"])
+        sigs[sig] = sigs.get(sig, 0) + 1
+        vs.append({"sig": sig, "desc": "%s: well-formed program rejected by rustc: %s -- program: %s" % (dj["tag"], msg[:300], " ".join(dj["variants"][0]["program"])),
+                   "replay": {"family": family, "tier": tier, "unit": unit, "mode": "compile", "tag": dj["tag"], "program": dj["variants"][0]["program"]}})
+    return {"part": "%s/compile" % family, "states": len(fails), "transitions": len(fails), "executions": 0, "evaluations": len(fails), "nontrivial": 0,
+            "exhaustive": True, "caps_hit": [], "samples": [], "extras": {"units_not_compiling": len(fails)}, "violations": vs[:60],
+            "violation_total": len(vs), "sig_counts": sigs, "rule": "", "wall_s": 0}
 
 
 def run_family(prop, family, tier, seed, mode, extra_args=None, timeout=3600):
@@ -73,9 +128,14 @@ def sum_extras(reps):
     return out
 
 
-def prog_check(families, mode):
+def prog_check(families, mode, report_compile_failures=True):
     def run(prop, tier, seed):
-        return [run_family(prop, f, tier, seed, mode) for f in families]
+        reps = []
+        for f in families:
+            reps.append(run_family(prop, f, tier, seed, mode))
+            if report_compile_failures and COMPILE_FAILURES.get((f, tier)):
+                reps.append(compile_failure_part(prop, f, tier))
+        return reps
     return run
 
 
@@ -102,7 +162,7 @@ def c19_run(prop, tier, seed):
 P_ASSUME = COMMON_ASSUME + ["the reference evaluator and the AST printer are trusted (guarded by the wrong-reference self-test and the mutation demos)"]
 
 SPECS = {}
-QUICK_FAMILIES = ["shape", "scc", "lat", "agg", "timeout"]
+QUICK_FAMILIES = ["shape", "scc", "lat", "agg", "timeout", "ds"]
 SPECS["C01"] = {"run": prog_check(["shape", "scc"], "C01"), "replay": prog_replay,
                 "technique": "bounded-exhaustive enumeration of programs (compiled by the real macros) x all input databases, compared with a naive reference evaluator",
                 "assumptions": P_ASSUME + ["programs from the families F-shape and F-scc, domain {0,1}"]}
@@ -121,6 +181,24 @@ SPECS["C13"] = {"run": prog_check(["scc", "lat", "agg"], "C13"), "replay": prog_
 SPECS["C14"] = {"run": prog_check(["timeout"], "C14"), "replay": prog_replay,
                 "technique": "fault enumeration by virtual clock: run_timeout(t) for every t in 0..=M+1 clock readings (every position at which the deadline can strike), single / repeated / double interruptions, then resume; compared with the reference fixpoint",
                 "assumptions": P_ASSUME + ["hook: ascent::internal::Instant has a per-thread virtual mode (1 ns per reading) under the verif-hooks feature", "serial macro"]}
+def ds_check(dsname):
+    def run(prop, tier, seed):
+        reps = [run_family(prop, "ds", tier, seed, prop, extra_args=["--only-tag", "ds-%s-" % dsname])]
+        if COMPILE_FAILURES.get(("ds", tier)):
+            part = compile_failure_part(prop, "ds", tier)
+            keep = [v for v in part["violations"] if ("ds-%s-" % dsname) in v["sig"]]
+            part["violations"] = keep
+            part["sig_counts"] = {k: v for k, v in part["sig_counts"].items() if ("ds-%s-" % dsname) in k}
+            part["violation_total"] = sum(part["sig_counts"].values())
+            reps.append(part)
+        return reps
+    return run
+
+
+for _pid, _ds, _what in (("C10", "eqrel", "reflexive-symmetric-transitive closure"), ("C11", "trrel", "transitive closure"), ("C12", "trrel_uf", "reflexive-transitive closure")):
+    SPECS[_pid] = {"run": ds_check(_ds), "replay": prog_replay,
+                   "technique": "bounded-exhaustive insertion histories (which pair arrives in which iteration) x access patterns on compiled programs with the real provider, compared with the explicit " + _what + " computed by a naive evaluator",
+                   "assumptions": P_ASSUME + ["pairs over {0,1,2}, arrival times 0..2, <= 3 pairs (binary) / <= 2-3 (ternary, 2 keys)", "results are observed through reader relations (the tagged relation's own field is a FakeVec)"]}
 SPECS["C16"] = {"run": hist_bin("c16"), "replay": hist_replay("c16"),
                 "technique": "exhaustive enumeration of all pairs/triples over complete small carriers on the real Lattice impls",
                 "assumptions": COMMON_ASSUME + ["wide integer types are covered at boundary values only; u8/i8 completely"]}
